@@ -280,7 +280,7 @@ func c16DispatchPart(t *testing.T, rep *vfReport) {
 			t.Fatalf("C16 harness: %v", err)
 		}
 		voter := i < followers
-		if err := n0.S.Join(joinRequest(n.Name, n.Addr, voter)); err != nil {
+		if err := clu8JoinRetry(c, n, voter, 90*time.Second); err != nil {
 			t.Fatalf("C16 harness: join: %v", err)
 		}
 		if _, err := n.S.WaitForLeader(60 * time.Second); err != nil {
@@ -293,7 +293,7 @@ func c16DispatchPart(t *testing.T, rep *vfReport) {
 		}
 		order = append(order, n)
 	}
-	if err := clu8Exec(n0.S, "CREATE TABLE c16 (id INTEGER PRIMARY KEY, v INTEGER)", "INSERT INTO c16(v) VALUES(7)"); err != nil {
+	if err := clu8ExecLeader(c, 90*time.Second, "CREATE TABLE IF NOT EXISTS c16 (id INTEGER PRIMARY KEY, v INTEGER)", "INSERT OR REPLACE INTO c16(id, v) VALUES(1, 7)"); err != nil {
 		t.Fatalf("C16 harness: %v", err)
 	}
 	// everyone caught up and in contact with the leader
@@ -668,13 +668,13 @@ func c16LiveStrictPart(t *testing.T, rep *vfReport) {
 	if err != nil {
 		t.Fatalf("C16 harness: %v", err)
 	}
-	if err := n0.S.Join(joinRequest(f.Name, f.Addr, true)); err != nil {
+	if err := clu8JoinRetry(c, f, true, 90*time.Second); err != nil {
 		t.Fatalf("C16 harness: join: %v", err)
 	}
 	if _, err := f.S.WaitForLeader(60 * time.Second); err != nil {
 		t.Fatalf("C16 harness: follower sees no leader")
 	}
-	if err := clu8Exec(n0.S, "CREATE TABLE c16d (id INTEGER PRIMARY KEY, v INTEGER)", "INSERT INTO c16d(v) VALUES(1)"); err != nil {
+	if err := clu8ExecLeader(c, 90*time.Second, "CREATE TABLE IF NOT EXISTS c16d (id INTEGER PRIMARY KEY, v INTEGER)", "INSERT OR REPLACE INTO c16d(id, v) VALUES(1, 1)"); err != nil {
 		t.Fatalf("C16 harness: %v", err)
 	}
 	deadline := time.Now().Add(60 * time.Second)
